@@ -391,9 +391,13 @@ pub fn run(cfg: &RunCfg) {
       lattice_pairs_case(&curs[k as usize], &news, universe)
     } else if k < n_pairs + n_gen {
       let mut rng = Rng::for_case(seed, k);
-      let (world, info) = gen_world(&mut rng, &GenCfg { max_pkgs: 3, fail_pct: 12, cross_pkg_star: true });
+      let workspace = rng.chance(10);
+      let (world, info) = gen_world(&mut rng, &GenCfg { max_pkgs: 3, fail_pct: 12, cross_pkg_star: true, workspace });
       let mut dist: Vec<(String, u64)> = info.kinds.iter().map(|(k, v)| (format!("gen_{}", k), *v)).collect();
       dist.push(("generated_worlds".into(), 1));
+      if workspace {
+        dist.push(("generated_workspace_worlds".into(), 1));
+      }
       closure_case(&format!("gen-{}", k), &world, json!({"packages": info.pkgs.iter().map(|p| json!({"name": p.name, "modules": p.modules, "exports": p.exports, "failing": p.failing})).collect::<Vec<_>>()}), dist)
     } else if k < n_pairs + n_gen + n_corpus {
       let (name, world) = &corpus[(k - n_pairs - n_gen) as usize];
